@@ -363,7 +363,7 @@ def run_unit(unit):
 
 
 def units(tier, seed):
-    n = 6000 if tier == 'thorough' else 250
+    n = 6000 if tier == 'thorough' else 700
     return [{'kind': 'explore', 'seed': seed, 'start': k * 100, 'count': 100} for k in range(n)]
 
 
